@@ -26,6 +26,7 @@
 #include "clang/Frontend/CompilerInstance.h"
 #include "clang/Frontend/FrontendAction.h"
 #include "clang/Lex/HeaderSearch.h"
+#include "clang/Lex/Lexer.h"
 #include "clang/Lex/Preprocessor.h"
 #include "clang/Tooling/CompilationDatabase.h"
 #include "clang/Tooling/Tooling.h"
@@ -261,6 +262,15 @@ class Extractor {
             o.raw("cptypes", jarr(cps));
             o.raw("pnames", jarr(pns));
             o.boolean("hasbody", F->hasBody());
+            if (auto *TA = F->getTemplateSpecializationArgs()) {
+                std::string ts;
+                llvm::raw_string_ostream os(ts);
+                for (unsigned i = 0; i < TA->size(); ++i) {
+                    if (i) os << ", ";
+                    TA->get(i).print(Pol, os, true);
+                }
+                o.str("targs", os.str());
+            }
             if (auto *M = dyn_cast<CXXMethodDecl>(F)) {
                 o.str("record", tnameOf(M->getParent()));
                 o.str("recordargs", templateArgsOfRecord(M->getParent()));
@@ -856,6 +866,45 @@ class PatternVisitor : public RecursiveASTVisitor<PatternVisitor> {
             o.boolean("const", M0->isConst());
         }
         o.boolean("method", isa<CXXMethodDecl>(FD));
+        {
+            // default arguments, as written, of this definition and of its earlier declarations
+            std::vector<std::string> defs;
+            for (unsigned pi = 0; pi < FD->getNumParams(); ++pi) {
+                std::string txt;
+                for (const FunctionDecl *R = FD; R; R = R->getPreviousDecl()) {
+                    if (pi >= R->getNumParams()) break;
+                    const ParmVarDecl *P = R->getParamDecl(pi);
+                    if (P->hasDefaultArg() || P->hasUninstantiatedDefaultArg() || P->hasUnparsedDefaultArg()) {
+                        SourceRange SR = P->getDefaultArgRange();
+                        if (SR.isValid())
+                            txt = Lexer::getSourceText(CharSourceRange::getTokenRange(SR), X.SM, X.Ctx.getLangOpts()).str();
+                        if (!txt.empty()) break;
+                    }
+                }
+                defs.push_back(jstr(txt));
+            }
+            o.raw("defaults", jarr(defs));
+            if (FunctionTemplateDecl *FT = FD->getDescribedFunctionTemplate()) {
+                // declarations of the template carry the defaults
+                std::vector<std::string> defs2;
+                for (unsigned pi = 0; pi < FD->getNumParams(); ++pi) {
+                    std::string txt;
+                    for (const FunctionTemplateDecl *R = FT; R; R = R->getPreviousDecl()) {
+                        const FunctionDecl *RF = R->getTemplatedDecl();
+                        if (pi >= RF->getNumParams()) break;
+                        const ParmVarDecl *P = RF->getParamDecl(pi);
+                        if (P->hasDefaultArg() || P->hasUninstantiatedDefaultArg() || P->hasUnparsedDefaultArg()) {
+                            SourceRange SR = P->getDefaultArgRange();
+                            if (SR.isValid())
+                                txt = Lexer::getSourceText(CharSourceRange::getTokenRange(SR), X.SM, X.Ctx.getLangOpts()).str();
+                            if (!txt.empty()) break;
+                        }
+                    }
+                    defs2.push_back(jstr(txt));
+                }
+                o.raw("tdefaults", jarr(defs2));
+            }
+        }
         bool inClass = false;
         if (auto *M = dyn_cast<CXXMethodDecl>(FD)) {
             inClass = M->getLexicalDeclContext()->isRecord();
